@@ -198,7 +198,7 @@ def check(run: Run, prog: Program, model: Model, tier: str) -> None:
         else:
             run.violated("VALUE-FIRST", f"Validator.{hook}: value set", g.loc, "the pinned value is not compared",
                          witness="schema % v accepts values different from v")
-    run.floor("VALUE-FIRST", 14)
+    run.floor("VALUE-FIRST", 10)
 
 
 def _list_cover(run: Run, prog: Program, model: Model, tier: str) -> None:
